@@ -5,7 +5,7 @@
 From Coq Require Import List ZArith Bool.
 From SVC Require Import Base.AMap Base.Res Base.Dec Model.Types Model.Pricing
   Model.Handlers Model.EndBlock Model.Step Proofs.Inv Proofs.BankLemmas Proofs.StepSpecs_deposit
-  Proofs.TraceLemmas Proofs.TraceSettle Proofs.DecProofs Proofs.GapC02 Proofs.GapC02b Proofs.GapC03.
+  Proofs.TraceLemmas Proofs.TraceSettle Proofs.DecProofs Proofs.GapC02 Proofs.GapC02b Proofs.GapC03 Proofs.GapC04.
 Import ListNotations.
 Open Scope Z_scope.
 
@@ -220,3 +220,40 @@ Theorem C04_step_slash_totals : forall cfg s o s',
     /\ bal s' Deposit = bal s Deposit - slashed_all d.
 Proof. exact GapC03.deposit_falls_only_by_slash. Qed.
 Print Assumptions C04_step_slash_totals.
+
+(* "never for any other reason", per step: an event that mentions request r is appended only by
+   EndBlock or by an accepted response to r itself *)
+Theorem C04_request_events_only_by : forall cfg s o s' d e r,
+  handle cfg s o = Ok s' -> log s' = d ++ log s -> In e d -> ev_rid e = Some r ->
+  (exists dt, o = OEndBlock dt) \/ (exists w c out v, o = ORespond r w c out v true).
+Proof. exact GapC04.request_events_only_by. Qed.
+Print Assumptions C04_request_events_only_by.
+
+(* a slash event is appended only by EndBlock or by an accepted response to that request with a
+   non-empty schema-invalid output; in the second case it names the binding (service of the
+   context, responding = designated provider) and the fraction of its deposit *)
+Theorem C04_only_respond_and_endblock_slash : forall cfg s o s' d r k amt,
+  handle cfg s o = Ok s' -> log s' = d ++ log s -> In (EvSlash r k amt) d ->
+  (exists dt, o = OEndBlock dt)
+  \/ (exists w c out q rc,
+        o = ORespond r w c out false true /\ out <> 0
+        /\ get r (reqs s) = Some q /\ get (rid_ctx r) (ctxs s) = Some rc /\ w = r_prov q
+        /\ k = (c_svc rc, w) /\ amt = mul_trunc (dep_at s k) (p_slash cfg)).
+Proof. exact GapC04.only_respond_and_endblock_slash. Qed.
+Print Assumptions C04_only_respond_and_endblock_slash.
+
+(* the expiry loop packaged (C04_LI_start, C04_LI_loop, C04_expire_req_events composed): for a
+   reachable state and a context due for expiry whose batch is still open, every still-active
+   request of the batch expires at its expiry height, and outside super mode its provider's
+   binding is slashed and the fee refunded to the consumer *)
+Theorem C04_expire_one_events : forall cfg s c rc,
+  wf_cfg cfg -> Reach cfg s -> In (height s, c) (expq s) ->
+  get c (ctxs s) = Some rc -> c_bdone rc = false ->
+  forall r, In r (active_rids s c (c_counter rc)) ->
+    exists q, get r (reqs s) = Some q /\ r_active q = true /\ rid_ctx r = c /\ r_exp q = height s
+      /\ In (EvExpire r) (log (expire_one cfg s c))
+      /\ (c_super rc = false ->
+            In (EvRefund r (c_cons rc) (r_fee q)) (log (expire_one cfg s c))
+            /\ exists amt, In (EvSlash r (c_svc rc, r_prov q) amt) (log (expire_one cfg s c))).
+Proof. exact GapC04.expire_one_events. Qed.
+Print Assumptions C04_expire_one_events.
